@@ -1,7 +1,7 @@
 (* C19 — configuration validation and start-up: executable model of
 
-     core/burrow.go            newCoordinators (37-110), configureCoordinators incl. the deferred recover handler (112-127),
-                               Start (143-200)
+     core/burrow.go            newCoordinators (38-111), configureCoordinators incl. the deferred recover handler (113-130),
+                               Start (146-203)
      core/internal/*/          every coordinator's and module's Configure (first panic wins)
      core/internal/helpers/    GetSaramaConfigFromClientProfile (sarama.go:67-148)
 
@@ -28,7 +28,7 @@ Inductive auth := AuthNone | AuthPlain | AuthCramMD5 | AuthOther.
 (* Panic sites = entries of the requirement catalogue; each cites the check in /repo.                                  *)
 (* ------------------------------------------------------------------------------------------------------------------ *)
 Inductive site :=
-  (* zookeeper coordinator — only configured when a notifier section exists (core/burrow.go:41-54) *)
+  (* zookeeper coordinator — only configured when a notifier section exists (core/burrow.go:42-55) *)
   | ZkNoServers            (* zookeeper/coordinator.go:62-64   "No Zookeeper servers specified" *)
   | ZkBadServers           (* zookeeper/coordinator.go:65-66   "Failed to validate Zookeeper servers" *)
   | ZkBadRoot              (* zookeeper/coordinator.go:69-72   "Zookeeper root path is not valid" *)
@@ -192,7 +192,7 @@ Definition reverse_order (c : config) : order :=
 Definition mem (x : str) (l : list str) : bool := existsb (Z.eqb x) l.
 Definition file_ok (c : config) (f : str) : bool := mem f (cfg_files c).
 
-Definition have_notifiers (c : config) : bool :=            (* viper.IsSet("notifier")   core/burrow.go:41 *)
+Definition have_notifiers (c : config) : bool :=            (* viper.IsSet("notifier")   core/burrow.go:42 *)
   cfg_notifier_table c || match cfg_notifier c with [] => false | _ => true end.
 
 Definition empty_tls : tls_profile := {| tp_name := 0; tp_cert := 0; tp_key := 0; tp_ca := 0 |}.
@@ -380,7 +380,7 @@ Definition configure_consumer (o : order) (c : config) : option panic :=
 (* ------------------------------------------------------------------------------------------------------------------ *)
 Inductive coord := CZookeeper | CStorage | CEvaluator | CHttpserver | CNotifier | CCluster | CConsumer.
 
-(* newCoordinators, core/burrow.go:37-110 *)
+(* newCoordinators, core/burrow.go:38-111 *)
 Definition coordinators (c : config) : list coord :=
   (if have_notifiers c then [CZookeeper] else []) ++
   [CStorage; CEvaluator; CHttpserver] ++
@@ -398,7 +398,7 @@ Definition configure_coord (o : order) (c : config) (k : coord) : option panic :
   | CConsumer => configure_consumer o c
   end.
 
-(* the loop of configureCoordinators, core/burrow.go:123-125 *)
+(* the loop of configureCoordinators, core/burrow.go:126-128 *)
 Definition configure_all (o : order) (c : config) : option panic :=
   scan (configure_coord o c) (coordinators c).
 
@@ -406,30 +406,57 @@ Definition configure_all (o : order) (c : config) : option panic :=
 Definition configured (o : order) (c : config) : list coord :=
   scan_prefix (configure_coord o c) (coordinators c).
 
-(* Outcome of configureCoordinators as a whole: it returns with app.ConfigurationValid set, or a panic leaves it. *)
+(* The caller's ApplicationContext when Start is entered.  Start is exported ("it is possible to use Burrow as a
+   library"), so the context need not be fresh: it may have been constructed with any field values, or be the one an
+   earlier Start returned from.  Of its fields (core/protocol/protocol.go:25-65)
+     Logger, LogLevel                   nil => Start builds a fresh context of its own (core/burrow.go:148-153); otherwise
+                                        only used for logging
+     ConfigurationValid                 READ at core/burrow.go:176 after configureCoordinators        <- the input below
+     EvaluatorChannel, StorageChannel   overwritten at core/burrow.go:171-172 before any coordinator sees them
+     Zookeeper, ZookeeperRoot, ZookeeperConnected, ZookeeperExpired
+                                        written by the zookeeper coordinator's Configure / Start before the notifier
+                                        coordinator (the only reader; it exists only together with the zookeeper one) runs
+     AppReady                           written by consumer.Coordinator.Start, read only by the /burrow/admin/ready handler
+   only ConfigurationValid can carry information from before the call into Start's decision. *)
+Record app_state := { app_valid : bool }.          (* app.ConfigurationValid on entry *)
+
+Definition fresh_app : app_state := {| app_valid := false |}.       (* &protocol.ApplicationContext{Logger: .., LogLevel: ..} *)
+(* not fresh: constructed with the flag set, or left behind by an earlier Start that got past configuration *)
+Definition used_app : app_state := {| app_valid := true |}.
+
+(* Outcome of configureCoordinators as a whole: it returns with app.ConfigurationValid = valid, or a panic leaves it. *)
 Inductive configured_result := CfgReturn (valid : bool) | CfgPanic (p : panic).
 
-(* The deferred recover handler as fixed (core/burrow.go:115-122):
+(* The deferred recover handler; its second argument is app.ConfigurationValid as it is when the handler runs (nothing
+   has written it since Start was entered: the assignment of the happy path comes after the loop). *)
+Definition handler := panic -> bool -> configured_result.
+
+(* The handler as fixed (core/burrow.go:116-123):
        app.Logger.Error("invalid configuration", zap.String("error", fmt.Sprintf("%v", r)))
        app.ConfigurationValid = false
-   Formatting with %v is total on every value; nothing panics again. *)
-Definition handler_fixed (p : panic) : configured_result := CfgReturn false.
+   Formatting with %v is total on every value; nothing panics again; the flag is RESET, whatever it was. *)
+Definition handler_fixed : handler := fun _ _ => CfgReturn false.
 
 (* The handler of the unchanged tree:
        app.Logger.Panic(r.(string))
        app.ConfigurationValid = false
    For a string (plain or from zap) Logger.Panic logs and panics again with that string; for an error value the type
    assertion r.(string) itself raises a runtime error.  The assignment is never reached. *)
-Definition handler_old (p : panic) : configured_result :=
+Definition handler_old : handler := fun p _ =>
   match p with
   | PanicString s m | PanicZap s m => CfgPanic (PanicZap s m)
   | PanicError _ m => CfgPanic (PanicError HandlerAssertion m)
   end.
 
-Definition configure_coordinators (h : panic -> configured_result) (o : order) (c : config) : configured_result :=
+(* NOT in /repo — a handler that logs and returns but leaves the flag alone.  It passes every test that starts from a
+   fresh context; kept to show (ConfigValidProofs.noreset_handler_accepts_invalid) that the initial state is a genuine
+   input of the property and why the probe varies it. *)
+Definition handler_noreset : handler := fun _ v => CfgReturn v.
+
+Definition configure_coordinators (h : handler) (o : order) (c : config) (a : app_state) : configured_result :=
   match configure_all o c with
-  | None => CfgReturn true           (* core/burrow.go:126 *)
-  | Some p => h p                    (* deferred func *)
+  | None => CfgReturn true                  (* core/burrow.go:129 *)
+  | Some p => h p (app_valid a)             (* deferred func *)
   end.
 
 (* helpers/zookeeper.go:46-93 ZookeeperConnectTLS / newTLSDialer: the files of the zookeeper.tls profile are read when the
@@ -461,7 +488,7 @@ Inductive result :=
 
 Definition nothing_started : list coord := [].
 
-(* core/burrow.go:178-199: start in order; on the first error stop the earlier ones and return 1; otherwise wait for the
+(* core/burrow.go:180-202: start in order; on the first error stop the earlier ones and return 1; otherwise wait for the
    exit channel (the probe closes it beforehand), stop everything, return 0. *)
 Fixpoint start_list (o : order) (c : config) (todo started : list coord) : result :=
   match todo with
@@ -469,19 +496,31 @@ Fixpoint start_list (o : order) (c : config) (todo started : list coord) : resul
   | k :: r => if start_coord o c k then start_list o c r (started ++ [k]) else Returned 1 (started ++ [k])
   end.
 
-Definition start_with (h : panic -> configured_result) (o : order) (c : config) : result :=
-  match configure_coordinators h o c with
+Definition start_with (h : handler) (o : order) (c : config) (a : app_state) : result :=
+  match configure_coordinators h o c a with
   | CfgPanic p => Panicked p
-  | CfgReturn false => Returned 1 nothing_started          (* core/burrow.go:173-175 *)
+  | CfgReturn false => Returned 1 nothing_started          (* core/burrow.go:176-178 *)
   | CfgReturn true => start_list o c (coordinators c) []
   end.
 
 Definition start := start_with handler_fixed.
 Definition start_old := start_with handler_old.
 
-(* app.ConfigurationValid after Start (false initially; a panic leaves it untouched) *)
-Definition config_valid (o : order) (c : config) : bool :=
-  match configure_coordinators handler_fixed o c with CfgReturn v => v | CfgPanic _ => false end.
+(* app.ConfigurationValid after Start (a panic leaves it as it was) *)
+Definition config_valid_with (h : handler) (o : order) (c : config) (a : app_state) : bool :=
+  match configure_coordinators h o c a with CfgReturn v => v | CfgPanic _ => app_valid a end.
+
+Definition config_valid := config_valid_with handler_fixed.
+
+(* The context after Start returned (or was left by a panic), as the next Start on the same context finds it. *)
+Definition app_after (o : order) (c : config) (a : app_state) : app_state := {| app_valid := config_valid o c a |}.
+
+(* A context re-used over a history of earlier Start calls (each with its own configuration and map order). *)
+Fixpoint app_after_history (hist : list (order * config)) (a : app_state) : app_state :=
+  match hist with
+  | [] => a
+  | (o, c) :: r => app_after_history r (app_after o c a)
+  end.
 
 (* ------------------------------------------------------------------------------------------------------------------ *)
 (* The specification: the catalogue of documented requirements, every violated one listed (no order, no first-wins).   *)
@@ -590,7 +629,7 @@ Definition consumer_mod_reqs (c : config) (m : consumer_mod) : list violation :=
 
 Definition consumer_reqs (c : config) : list violation := flat_map (consumer_mod_reqs c) (cfg_consumer c).
 
-(* Zookeeper and notifier requirements bind only when a notifier section exists (core/burrow.go:41-54: "Only include
+(* Zookeeper and notifier requirements bind only when a notifier section exists (core/burrow.go:42-55: "Only include
    zookeeper if we have dependant coordinators"). *)
 Definition requirements (c : config) : list violation :=
   (if have_notifiers c then zookeeper_reqs c else []) ++
